@@ -672,7 +672,10 @@ def run_pair(root, env, st, inv, do_strace, pdir, e2label):
         after = {role: fswatch.snapshot(p) for role, p in targets.items()}
         res.update(rc=r.rc, sig=r.sig, timed_out=r.timed_out, capped=capped,
                    wall=round(r.wall, 2), outlen=len(r.out) + len(r.err))
+        # the volume label of the corpus images is the base name ("ext4_quota"): keep it out of
+        # the keyword matching
         text = (r.text + "\n" + r.etext).replace(root + "/", "").replace(pdir + "/", "")
+        text = text.replace(st["spec"]["base"][:16], "LABEL")
         res["kw"] = kw_lines(text)
         res["tail"] = (r.text[-500:] + "\n--stderr--\n" + r.etext[-500:])
         diffs = {}
@@ -928,8 +931,7 @@ def main(tier, seed, replay=None, scale=1.0):
                     if t["target_open_rw"]:
                         rep.add("tools_opening_target_rw_INFO", inv)
                     for f in t["nontarget_files"]:
-                        if not f.startswith("#") and not f.startswith("pipe:"):
-                            rep.add("nontarget_files_written", re.sub(r"\d+", "N", f))
+                        rep.add("nontarget_files_written", f)
                     if r["outlen"] and not t["nontarget_writes"]:
                         rep.harness_error("tool printed %d bytes but strace saw no write call "
                                           "(%s)" % (r["outlen"], inv))
